@@ -27,8 +27,8 @@ MANIFEST = {
                   'with the ValueError contract.  Exploration: held on the texts observed.',
     'level_note': 'Trusts the renderer and the keyword-built rule as reference; horizon-bounded like C01.',
 }
-PLAN = {'quick': {'shards': 4, 'timeout': 500, 'budget': 40},
-        'thorough': {'shards': 16, 'timeout': 2400, 'budget': 500}}
+PLAN = {'quick': {'shards': 4, 'timeout': 1800, 'budget': 900},
+        'thorough': {'shards': 16, 'timeout': 7200, 'budget': 2400}}
 N_CASES = {'quick': 700, 'thorough': 9000}
 WD = ['MO', 'TU', 'WE', 'TH', 'FR', 'SA', 'SU']
 
